@@ -310,7 +310,7 @@ JUDGES = {"cg": judge_cg, "cbldm": judge_cbldm, "ckkgen": judge_ckkgen}
 def run_shard(spec, rng, ctx):
     end = C.budget(spec)
     i = 0
-    while time.time() < end:
+    while C.now() < end:
         case = draw(rng, i)
         JUDGES[case["kind"]](case, ctx, rng)
         i += 1
